@@ -109,6 +109,20 @@ Theorem C08_time_partial : forall Orc JO ft (val64 : N -> Q) (inst : list N -> o
   (j <= q + (e1 + e2) /\ q - (e1 + e2) < j + 1)%Q.
 Proof. exact time_partial. Qed.
 
+(* REFUTED for fractional instants far from the epoch (known finding
+   binary-time-float64-precision): CBOR tag 1 carries float64 seconds, every
+   float64 is m * 2^e with |m| < 2^53, and none of them is within one
+   microsecond of T9 = 2^34 s + 123456789 ns (year 2514).  The inequality is
+   |m * 2^e - T9/10^9| > 10^-6 with denominators cleared: multiplied by
+   10^9 * 2^18 when e >= -18, and further by 2^(-18-e) when e < -18.  Whatever
+   the decoder prints, the "same instant within one microsecond" clause cannot
+   hold for this Time field when the JSON build is asked for sub-microsecond
+   text (TimeFieldFormat = RFC3339Nano); the driver replays it on the real code. *)
+Theorem C08_time_far_refuted : forall m e : Z, (Z.abs m < 2^53)%Z ->
+  if (-18 <=? e)%Z then (Z.abs (m * 2^(e+18) * 10^9 - T9 * 2^18) > 10^3 * 2^18)%Z
+  else (Z.abs (m * 10^9 - T9 * 2^18 * 2^(-18-e)) > 10^3 * 2^18 * 2^(-18-e))%Z.
+Proof. exact time_far_refuted. Qed.
+
 Theorem C08_equiv_refl : forall v, jv_equiv v v.
 Proof. exact jv_equiv_refl. Qed.
 
@@ -162,4 +176,5 @@ Print Assumptions C08_uint_exact.
 Print Assumptions C08_int_exact.
 Print Assumptions C08_bytes_escaped.
 Print Assumptions C08_time_partial.
+Print Assumptions C08_time_far_refuted.
 Print Assumptions C08_equiv_refl.
